@@ -4,6 +4,7 @@ import struct
 import gen_mapper as GM
 import pipeline_check as PC
 import pipeline_engine as PE
+import genproof
 import vf
 
 KF_WRAP = "counter-uint64-wrap"
@@ -124,7 +125,7 @@ def monitor(rep, case, impl, model, payload):
         rep.nontrivial(tuple(ops))
 
 
-def run(rep, tier, seed, replay):
+def _run(rep, tier, seed, replay):
     extra = [(15, ("none", 0), [PE.I(b"w:1e19|c"), "G", PE.I(b"w:1e19|c"), "G"], dict(nbig=2, scale="None", scale_value=None)),
              (15, ("none", 0), [PE.I(b"n:1|c"), "G", PE.I(b"n:NaN|c"), "G", PE.I(b"n:1|c|@nan"), "G", PE.I(b"n:-1|c|@-1"), "G"], dict(nbig=0, scale="None", scale_value=None))]
     # a counter created without a ttl that receives one later, when it is already older than that ttl: its next sample must not reset it
@@ -137,3 +138,11 @@ def run(rep, tier, seed, replay):
            "%(n)d counter histories of 3-20 lines with values and sampling rates from finite, negative, signed-zero, huge (2^63, 2^64-1, 1e19, 1e308), denormal, "
            "Inf and NaN spellings and rule scale factors incl. 0, -0, negative, NaN, +-Inf; value observed at every prefix; non-trivial = history in which some "
            "counter strictly increased; distinct by op sequence", extra_cases=extra)
+
+
+def run(rep, tier, seed, replay):
+    _run(rep, tier, seed, replay)
+    if not replay:
+        # "never decreases unless the ttl expired": expiry is measured on the clock the registry reads; the same obligations as C07
+        genproof.clock_obligation(rep, "C07_clock.v", "time enters the registry / exporter loop other than as clock.Now and the sweep ticker of pkg/clock, pkg/clock turns its "
+                                  "instants into wall-clock-only values, or the wall clock is read without going through pkg/clock", ("pkg/registry.", "pkg/exporter.", "pkg/clock."))
